@@ -13,7 +13,7 @@ Arguments BOk {A}. Arguments BPanic {A}.
 
 (** panic classes (the harness maps the panic message of the real code to the same numbers) *)
 Definition P_char : N := 1.      (* char::from_u32(code).expect("Invalid character code") *)
-Definition P_radix : N := 2.     (* u32::from_str_radix(..).unwrap() on Err (overflow / bad digit) *)
+Definition P_radix : N := 2.     (* (before /repo a4a3647: u32::from_str_radix(..).unwrap() on Err; no longer reachable) *)
 Definition P_shape : N := 3.     (* parts! / only_child / all_children / "Unexpected rule" / split_at *)
 Definition P_empty : N := 4.     (* "Empty document" / unexpected top-level rule *)
 
@@ -126,20 +126,75 @@ Definition to_keyword (p : pr) : keyword := mkKw (as_str p) (to_pos p).
 Definition build_variable (p : pr) : bres (str * pos) :=
   only_child p (fun n => BOk (as_str n, to_pos p)).
 
-(** value.rs: one StringCharacter pair -> one char *)
-Definition build_string_char (p : pr) : bres N :=
-  only_child p (fun c =>
-    match pair_rule c with
-    | R_EscapedUnicodeBrace => only_child c (fun d => code_to_char (as_str d))
-    | R_EscapedUnicode4 => code_to_char (skipn 2 (as_str c))
-    | R_EscapedCharacter =>
-        match as_str c with
-        | [_; e] => escaped_char e
-        | _ => BPanic P_shape
-        end
-    | R_NormalStringCharacter => match as_str c with ch :: _ => BOk ch | [] => BPanic P_shape end
-    | _ => BPanic P_shape
-    end).
+(** value.rs decode_string_characters (since /repo a4a3647): Result<String, Pair> *)
+Inductive dres := DOk (v : str) | DErr (bad : pr) | DPanic (k : N).
+Definition dcons (ch : N) (r : dres) : dres := match r with DOk v => DOk (ch :: v) | e => e end.
+
+(** for one character pair [c] (the only child of a StringCharacter): None = not a unicode escape,
+    Some (code if it fits u32, is it the fixed-width \uXXXX form) *)
+Definition escaped_unicode (c : pr) : bres (option (option N * bool)) :=
+  match pair_rule c with
+  | R_EscapedUnicodeBrace => only_child c (fun d => BOk (Some (u32_from_hex (as_str d), false)))
+  | R_EscapedUnicode4 => BOk (Some (u32_from_hex (skipn 2 (as_str c)), true))
+  | _ => BOk None
+  end.
+
+Definition is_leading_surrogate (c : N) : bool := (55296 <=? c)%N && (c <=? 56319)%N.
+Definition is_trailing_surrogate (c : N) : bool := (56320 <=? c)%N && (c <=? 57343)%N.
+
+(** a character pair that is not a unicode escape *)
+Definition plain_char (c : pr) : bres N :=
+  match pair_rule c with
+  | R_EscapedCharacter => match as_str c with [_; e] => escaped_char e | _ => BPanic P_shape end
+  | R_NormalStringCharacter => match as_str c with ch :: _ => BOk ch | [] => BPanic P_shape end
+  | _ => BPanic P_shape
+  end.
+
+(** the loop over the StringCharacter pairs; [leading] = a \uXXXX leading surrogate waiting for its
+    trailing surrogate, with the pair to blame *)
+Fixpoint decode_chars (kids : list pr) (leading : option (N * pr)) : dres :=
+  match kids with
+  | [] => match leading with Some (_, bad) => DErr bad | None => DOk [] end
+  | k :: rest =>
+      match pair_kids k with
+      | [c] =>
+          match escaped_unicode c with
+          | BPanic e => DPanic e
+          | BOk eu =>
+              match leading with
+              | Some (lead, bad) =>
+                  match eu with
+                  | Some (Some trailing, true) =>
+                      if is_trailing_surrogate trailing then
+                        match char_from_u32 (65536 + (lead - 55296) * 1024 + (trailing - 56320))%N with
+                        | Some ch => dcons ch (decode_chars rest None)
+                        | None => DErr bad
+                        end
+                      else DErr bad
+                  | _ => DErr bad
+                  end
+              | None =>
+                  match eu with
+                  | Some (code, fixed) =>
+                      if fixed && match code with Some cd => is_leading_surrogate cd | None => false end
+                      then match code with Some cd => decode_chars rest (Some (cd, c)) | None => DErr c end
+                      else match code with
+                           | Some cd => match char_from_u32 cd with Some ch => dcons ch (decode_chars rest None) | None => DErr c end
+                           | None => DErr c
+                           end
+                  | None =>
+                      match plain_char c with
+                      | BOk ch => dcons ch (decode_chars rest None)
+                      | BPanic e => DPanic e
+                      end
+                  end
+              end
+          end
+      | _ => DPanic P_shape
+      end
+  end.
+
+Definition decode_string_characters (p : pr) : dres := decode_chars (pair_kids p) None.
 
 (** value.rs build_string_value: (position, value).  A block string is returned raw: the text
     between the triple quotes, no indentation removal, no unescaping of an escaped triple quote. *)
@@ -153,7 +208,12 @@ Definition build_string_value (p : pr) : bres (pos * str) :=
         if (length t <? 6)%nat then BPanic P_shape
         else BOk (position, firstn (length t - 6) (skipn 3 t))
     | R_NormalStringValue =>
-        cs <- mapM build_string_char (pair_kids c) ;; BOk (position, cs)
+        (* invalid escapes were rejected by validate_string_values before building; here they would panic *)
+        match decode_string_characters c with
+        | DOk cs => BOk (position, cs)
+        | DErr _ => BPanic P_char
+        | DPanic k => BPanic k
+        end
     | _ => BPanic P_shape
     end).
 
